@@ -157,10 +157,19 @@ def build(spec):
                 if v is not None:
                     sh['cells'][f'{COLS[c]}{r + 1}'] = v
     qs = []
+    on = []
+    todo = []
     for fs in spec['formulas']:
+        todo.append((fs, 'S'))
+        if spec.get('grid2') and all(not a.get('sheet') and a['t'] in ('area', 'cell', 'col', 'num') for a in fs['args']) \
+                and any(a['t'] != 'num' for a in fs['args']):
+            # the same text on the second sheet: unqualified references mean the sheet of the formula
+            todo.append((fs, 'T'))
+    for fs, home in todo:
         fn, args = fs['fn'], fs['args']
+        n0 = len(qs)
         try:
-            exp = fold(spec, fn, args)
+            exp = fold(spec, fn, args if home == 'S' else [{**a, 'sheet': 'T'} if a['t'] != 'num' else a for a in args])
         except Skip:
             continue
         call = f"{fn}({','.join(arg_text(a) for a in args)})"
@@ -175,7 +184,11 @@ def build(spec):
         if fs.get('split_partner') and fn in ('SUM', 'COUNT') and len(args) >= 2:
             parts = '+'.join(f"{fn}({arg_text(a)})" for a in args)
             qs.append(Q(f'={parts}', exp, f'{fn}:sum-of-parts', nt, tags + ['sum-of-parts']))
-    return {'sheets': sheets, 'queries': qs, 'first_col': 12, 'ncols': 64}  # one row: whole-column areas must not see the formula block
+        for q_ in qs[n0:]:
+            on.append(home)
+            if home == 'T':
+                q_.tags.append('formula-on-second-sheet')
+    return {'sheets': sheets, 'queries': qs, 'on': on, 'first_col': 12, 'ncols': 64}  # one row: whole-column areas must not see the formula block
 
 
 def run_case(spec):
